@@ -4,6 +4,7 @@ Same structure as Props/C01.
 -/
 import Daac.Proofs.Glue
 import Daac.Proofs.SpecProps
+import Daac.Proofs.Rung2
 namespace Daac.Props.C05
 open Daac
 variable {V : Type} [DecidableEq V]
@@ -40,5 +41,27 @@ theorem spec_is_head_of_overlapping (Ps : List (Pat V)) (hV : ValidPats Ps) (h :
     specNoSuffix Ps h = (specOverlapping Ps h).filter
       (fun m => decide (∀ m' ∈ specOverlapping Ps h, m'.stop = m.stop → m.start ≤ m'.start)) :=
   specNoSuffix_eq_filter hV h
+
+
+/-! ### Rung 2 — every pattern collection, every `num_free_blocks`, in the model of the builder
+
+`buildDA` is the model of `build_with_values` (Model/Trie.lean, Model/Nfa.lean, Model/Build.lean),
+tied to the implementation by suite K-build (byte-identical tables). The chain of proofs:
+insertion phase (Proofs/TrieFacts, NfaQueue) → fail links and outputs (Proofs/NfaStd, NfaLm, NfaG)
+→ layout with the ring-buffer helper, BASE uniqueness and CHECK sanitising (Proofs/HelperFacts,
+LayoutB, LayoutC, MapperFacts) → table semantics (Proofs/LayoutSem) → iterators (Rung 1). -/
+
+theorem nosuffix_correct_build_bytewise (nfb : Nat) (Ps : List (Pat V)) (hV : ValidPats Ps)
+    (hbytes : ∀ p ∈ Ps, ∀ b ∈ p.key, b < 256) (da : DA V)
+    (hb : buildDA .bytewise ⟨0, nfb⟩ (Ps.map lp) = .ok da) (h : List Nat) (hh : ∀ b ∈ h, b < 256) :
+    ∃ l fin, noSufAll da h = .ok (l, fin) ∧ l.map (·.1) = specNoSuffix Ps h :=
+  bytewise_nosuffix_correct nfb Ps hV hbytes da hb h hh
+
+theorem nosuffix_correct_build_charwise (nfb : Nat) (Q : List (List Nat × V)) (hQ : ScalarPats Q)
+    (hQ0 : Q ≠ []) (hnd : (Q.map (·.1)).Nodup) (da : DA V)
+    (hb : buildDA .charwise ⟨0, nfb⟩ (Q.map charPat) = .ok da) (t : List Nat) (ht : Scalars t) :
+    ∃ l fin, noSufAll da (encAll t) = .ok (l, fin) ∧
+      l.map (·.1) = specNoSuffix (Q.map bytePat) (encAll t) :=
+  charwise_nosuffix_correct nfb Q hQ hQ0 hnd da hb t ht
 
 end Daac.Props.C05
